@@ -118,7 +118,9 @@ class Mitm(scen.Relay):
         out = []
         what = p.get("what", "hostile")
         for i in range(p.get("n", 1)):
-            if what == "hostile":
+            if what == "hostile" and i % 4 == 3:
+                tag, data = hostile.edge_reply(self.hrng, q, i // 4 + p.get("k", 0))
+            elif what == "hostile":
                 tag, data = hostile.client_reply(self.hrng, q, real=dg.data)
             elif what == "trunc":
                 data = hostile.answer_truncations(self.hrng, dg.data)
